@@ -27,7 +27,7 @@ SetterCalls ==
   \cup {[f |-> "lazer", v |-> b, w |-> FALSE] : b \in {"T", "F"}}
 
 EntrySetterCalls ==
-  {[f |-> "mods", v |-> "HR", w |-> FALSE], [f |-> "clock", v |-> "in", w |-> FALSE],
+  {[f |-> "mods", v |-> "HR", w |-> FALSE], [f |-> "mods", v |-> "CL", w |-> FALSE], [f |-> "clock", v |-> "in", w |-> FALSE],
    [f |-> "passed", v |-> "p2", w |-> FALSE], [f |-> "passed", v |-> "p1000", w |-> FALSE], [f |-> "passed", v |-> "p0", w |-> FALSE],
    [f |-> "ar", v |-> "in", w |-> FALSE], [f |-> "od", v |-> "in", w |-> TRUE], [f |-> "lazer", v |-> "F", w |-> FALSE],
    [f |-> "cs", v |-> "in", w |-> FALSE], [f |-> "hp", v |-> "in", w |-> TRUE], [f |-> "hro", v |-> "T", w |-> FALSE]}
@@ -45,6 +45,11 @@ InitEntry == /\ d = NewDifficulty /\ calls = <<>>
              /\ \E e \in Entries : p = NewPerf(e)
 NextEntry == /\ Len(calls) < MaxCalls
              /\ \/ \E c \in EntrySetterCalls :
+                     \* Classic changes what the fields of an already generated score state MEAN (slider ends vs small ticks): a
+                     \* state generated before the mod was set is stale by design, so CL only comes before any generate_state()
+                     \* (nor may the mods be changed after a generate_state() once CL has been involved)
+                     /\ (c.f = "mods" /\ (\E i \in 1..Len(calls) : calls[i].f = "gen"))
+                          => (c.v # "CL" /\ \A i \in 1..Len(calls) : ~(calls[i].f = "mods" /\ calls[i].v = "CL"))
                      /\ p' = [p EXCEPT !.d = Set(@, c)] /\ calls' = Append(calls, c) /\ UNCHANGED d
                 \/ /\ p' = GenerateState(p) /\ calls' = Append(calls, [f |-> "gen", v |-> "-", w |-> FALSE]) /\ UNCHANGED d
 
